@@ -386,7 +386,32 @@ static void checker_cell(const pk_t *p, const jwk_item_t *item, jwt_alg_t A, int
 	}
 	int r = jwt_checker_verify(c, token);
 	vf_obs(r == 0);
-	if (r == 0) {
+	if (r == 0 && !strcmp(vf_prop, "C03")) {
+		/* C03 projection: only the unsigned-token clauses */
+		rt_t t;
+		const char *why = NULL;
+		n_accept++;
+		rt_parse(token, &t);
+		int third_empty = t.dots < 2 || t.seg[2][0] == 0;
+		int alg_none = t.alg_text && !strcmp(t.alg_text, "none");
+		if (e.must_fail)
+			why = "accepted-though-callback-config-inadmissible";
+		else if (e.have_key && third_empty)
+			why = "with-key-accepted-empty-signature";
+		else if (e.have_key && alg_none)
+			why = "with-key-accepted-alg-none";
+		else if (!e.have_key && (t.dots < 2 || !alg_none))
+			why = "without-key-accepted-alg-other-than-none";
+		else if (!e.have_key && !third_empty)
+			why = "without-key-accepted-nonempty-signature";
+		if (why)
+			vf_violation(why, "checker accepted: configured alg=%s key=%s key.alg=%s route=%s header=%s token=%s",
+				     A < 15 ? tok_alg_names[A] : "INVAL", p ? p->name : "absent", keyalg < 15 ? tok_alg_names[keyalg] : "INVAL",
+				     rt_name[route], h->label, token);
+		else
+			vf_nontrivial_case();
+		rt_free(&t);
+	} else if (r == 0) {
 		jwt_alg_t P;
 		const char *why = checker_reject_reason(&e, p, keyalg, token, &P);
 		n_accept++;
@@ -425,7 +450,28 @@ static void builder_cell(const pk_t *p, const jwk_item_t *item, jwt_alg_t A, int
 	eff_t e = effective(route, A, item != NULL, keyalg, priv, 1);
 	char *out = jwt_builder_generate(b);
 	vf_obs(out != NULL);
-	if (out) {
+	if (out && !strcmp(vf_prop, "C03")) {
+		rt_t t;
+		const char *why = NULL;
+		rt_parse(out, &t);
+		int third_empty = t.dots < 2 || t.seg[2][0] == 0;
+		int alg_none = t.alg_text && !strcmp(t.alg_text, "none");
+		if (e.must_fail)
+			why = "produced-though-callback-config-inadmissible";
+		else if (e.have_key && (third_empty || alg_none))
+			why = "with-key-produced-unsigned-token";
+		else if (!e.have_key && (!alg_none || !third_empty || t.dots < 2))
+			why = "without-key-produced-other-than-unsigned-none";
+		if (why)
+			vf_violation(why, "builder produced: configured alg=%s key=%s key.alg=%s route=%s token=%s",
+				     A < 15 ? tok_alg_names[A] : "INVAL", p ? p->name : "absent", keyalg < 15 ? tok_alg_names[keyalg] : "INVAL",
+				     rt_name[route], out);
+		else
+			vf_nontrivial_case();
+		rt_free(&t);
+		free(out);
+		n_accept++;
+	} else if (out) {
 		rt_t t;
 		const char *why = NULL;
 		jwt_alg_t P = JWT_ALG_NONE;
@@ -587,6 +633,267 @@ static void enumerate_c02(void)
 	vf_count("rejected_or_refused", n_reject);
 }
 
+/* ------------------------------------------------------------------ C03 enumeration */
+static const char *matching_attr(const pk_t *p)
+{
+	if (!p->vk) return "HS256";
+	if (!strcmp(p->vk->kty, "RSA")) return "RS256";
+	if (!strcmp(p->vk->kty, "EC")) return p->vk->bits == 256 ? "ES256" : p->vk->bits == 384 ? "ES384" : "ES512";
+	return "EdDSA";
+}
+
+static void enumerate_c03(void)
+{
+	add_oct("oct32", 32, NULL, 0);
+	add_pool("rsa2048a");
+	add_pool("p256a");
+	add_pool("ed25519a");
+	if (vf_thorough) {
+		add_oct("oct64", 64, NULL, 0);
+		add_pool("p384");
+		add_pool("ed448");
+		add_pool("rsapss2048");
+	}
+	static const jwt_alg_t ALGS[] = { JWT_ALG_NONE, JWT_ALG_HS256, JWT_ALG_RS256, JWT_ALG_ES256, JWT_ALG_EDDSA, JWT_ALG_PS256, JWT_ALG_INVAL };
+	/* header shapes of the unsigned-token question */
+	NHD = 0;
+	static const char *hs[] = { "none", "None", "NONE", "nOnE", "none ", " none", "non", "nonee", "HS256", "RS256", "ES256", "EdDSA", "" };
+	for (unsigned i = 0; i < sizeof hs / sizeof *hs; i++)
+		add_hd_str(hs[i]);
+	add_hd_raw("<missing>", "{\"typ\":\"JWT\"}");
+	add_hd_raw("<null>", "{\"alg\":null}");
+	add_hd_raw("<number>", "{\"alg\":0}");
+	add_hd_raw("<false>", "{\"alg\":false}");
+	add_hd_raw("<empty-object>", "{}");
+	static const char *tails[] = { "", ".", "..", ".AAAA", ".=", ". ", ".\t", ".%V", ".%V.", ".%V.x", ".%E", "...", ".A" };
+	for (int k = -1; k < NPK; k++) {
+		const pk_t *p = k < 0 ? NULL : &PK[k];
+		for (int a = 0; a < (p ? 2 : 1); a++) {
+			const char *attr = a ? matching_attr(p) : NULL;
+			jwk_set_t *set = p ? load_pk(p, 0, attr) : NULL;
+			const jwk_item_t *item = set ? jwks_item_get(set, 0) : NULL;
+			char *vtok[48], *etok[48];
+			int built = 0;
+			for (unsigned ai = 0; ai < sizeof ALGS / sizeof *ALGS; ai++)
+				for (int route = 0; route < NRT; route++)
+					for (int h = 0; h < NHD; h++)
+						for (unsigned t = 0; t < sizeof tails / sizeof *tails; t++) {
+							jwt_alg_t A = ALGS[ai];
+							if (!vf_case("checker alg=%s key=%s key.alg=%s route=%s header=%s tail='%s'",
+								     A < 15 ? tok_alg_names[A] : "INVAL", p ? p->name : "absent", attr ? attr : "-",
+								     rt_name[route], HD[h].label, tails[t]))
+								continue;
+							if (!built) {
+								rc_rng_reseed(k + 2000);
+								for (int hh = 0; hh < NHD; hh++) {
+									vtok[hh] = make_token(p, &HD[hh], SK_VALID);
+									etok[hh] = make_token(p, &HD[hh], SK_HMAC_EMPTYKEY);
+								}
+								built = 1;
+							}
+							char *input = tok_signing_input(HD[h].json, PAYLOAD);
+							char *tok = NULL;
+							const char *sub = strstr(tails[t], "%V") ? vtok[h] : strstr(tails[t], "%E") ? etok[h] : "";
+							if (!sub) {
+								vf_obs(5);
+								free(input);
+								continue;
+							}
+							const char *sigpart = *sub ? strrchr(sub, '.') + 1 : "";
+							char tail[2048];
+							const char *pc = strchr(tails[t], '%');
+							if (pc)
+								snprintf(tail, sizeof tail, "%.*s%s%s", (int)(pc - tails[t]), tails[t], sigpart, pc + 2);
+							else
+								snprintf(tail, sizeof tail, "%s", tails[t]);
+							tok = malloc(strlen(input) + strlen(tail) + 1);
+							sprintf(tok, "%s%s", input, tail);
+							checker_cell(p, item, A, route, &HD[h], tok);
+							free(tok);
+							free(input);
+						}
+			if (built)
+				for (int hh = 0; hh < NHD; hh++) {
+					free(vtok[hh]);
+					free(etok[hh]);
+				}
+			jwks_free(set);
+		}
+	}
+	for (int k = -1; k < NPK; k++) {
+		const pk_t *p = k < 0 ? NULL : &PK[k];
+		for (int priv = 1; priv >= 0; priv--) {
+			if (!priv && (!p || !p->vk))
+				continue;
+			for (int a = 0; a < (p ? 3 : 1); a++) {
+				const char *attr = a == 1 ? matching_attr(p) : a == 2 ? "XS999" : NULL;
+				jwk_set_t *set = p ? load_pk(p, priv, attr) : NULL;
+				const jwk_item_t *item = set ? jwks_item_get(set, 0) : NULL;
+				for (unsigned ai = 0; ai < sizeof ALGS / sizeof *ALGS; ai++)
+					for (int route = 0; route < NRT; route++) {
+						jwt_alg_t A = ALGS[ai];
+						if (!vf_case("builder alg=%s key=%s(%s) key.alg=%s route=%s", A < 15 ? tok_alg_names[A] : "INVAL",
+							     p ? p->name : "absent", priv ? "private" : "public", attr ? attr : "-", rt_name[route]))
+							continue;
+						rc_rng_reseed(vf_case_index());
+						builder_cell(p, item, A, route);
+					}
+				jwks_free(set);
+			}
+		}
+	}
+	vf_count("accepted_or_produced", n_accept);
+	vf_count("rejected_or_refused", n_reject);
+}
+
+/* ------------------------------------------------------------------ C09 enumeration */
+static long n_floor_ok, n_floor_refused;
+
+/* one (key, alg) cell: generate with the private/symmetric key, verify a reference-made token */
+static void floor_cell(const pk_t *p, jwt_alg_t alg, int expect_usable, int completeness)
+{
+	jwk_set_t *set = load_pk(p, 1, NULL);
+	const jwk_item_t *item = set ? jwks_item_get(set, 0) : NULL;
+	if (!item) {
+		vf_violation("harness|no-item", "no item for %s", p->name);
+		jwks_free(set);
+		return;
+	}
+	int item_err = jwks_item_error(item);
+	vf_obs(item_err);
+	/* ---- generate ---- */
+	jwt_builder_t *b = jwt_builder_new();
+	int src = jwt_builder_setkey(b, alg, item);
+	char *out = src ? NULL : jwt_builder_generate(b);
+	vf_obs(out != NULL);
+	if (out && !expect_usable)
+		vf_violation(p->vk ? (!strcmp(p->vk->kty, "RSA") ? "generate-below-floor|RSA" : !strcmp(p->vk->kty, "EC") ? "generate-below-floor|EC" : "generate-below-floor|OKP") : "generate-below-floor|oct",
+			     "generate succeeded with %s (%zu bits) for %s: %s", p->name, p->vk ? (size_t)p->vk->bits : p->octlen * 8, tok_alg_names[alg], out);
+	if (!out && !src && (!jwt_builder_error(b) || !jwt_builder_error_msg(b)[0]))
+		vf_violation("generate-null-without-error", "generate returned NULL without error for %s / %s", p->name, tok_alg_names[alg]);
+	if (out && expect_usable) {
+		rt_t t;
+		rt_parse(out, &t);
+		if (t.dots < 2 || !ref_sig_valid(p, alg, out, t.input_len, t.dec[2], t.declen[2]))
+			vf_violation("generate-invalid-signature", "token generated with %s / %s does not verify by reference: %s", p->name, tok_alg_names[alg], out);
+		rt_free(&t);
+		n_floor_ok++;
+		vf_nontrivial_case();
+	}
+	if (!out && expect_usable && completeness)
+		vf_violation("generate-refused-at-or-above-floor", "generate failed with %s / %s: %s", p->name, tok_alg_names[alg], jwt_builder_error_msg(b));
+	if (!out)
+		n_floor_refused++;
+	/* ---- verify a token made by the reference with this very key ---- */
+	char hjson[96];
+	snprintf(hjson, sizeof hjson, "{\"alg\":\"%s\",\"typ\":\"JWT\"}", tok_alg_names[alg]);
+	hd_t h = { tok_alg_names[alg], hjson, tok_alg_names[alg] };
+	char *tok = make_token(p, &h, SK_VALID);
+	int refsigned = tok != NULL;
+	if (!tok)
+		tok = make_token(p, &h, SK_GARBAGE);
+	jwt_checker_t *c = jwt_checker_new();
+	int crc = jwt_checker_setkey(c, alg, item);
+	int r = crc ? 1 : jwt_checker_verify(c, tok);
+	vf_obs(r == 0);
+	if (r == 0 && !expect_usable)
+		vf_violation(p->vk ? (!strcmp(p->vk->kty, "RSA") ? "verify-below-floor|RSA" : !strcmp(p->vk->kty, "EC") ? "verify-below-floor|EC" : "verify-below-floor|OKP") : "verify-below-floor|oct",
+			     "verify succeeded with %s (%zu bits) for %s", p->name, p->vk ? (size_t)p->vk->bits : p->octlen * 8, tok_alg_names[alg]);
+	if (r != 0 && !crc && (!jwt_checker_error(c) || !jwt_checker_error_msg(c)[0]))
+		vf_violation("verify-fails-without-error", "verify returned %d without error for %s / %s", r, p->name, tok_alg_names[alg]);
+	if (r != 0 && expect_usable && refsigned && completeness)
+		vf_violation("verify-refused-at-or-above-floor", "verify of a reference-signed token failed with %s / %s: %s", p->name, tok_alg_names[alg], jwt_checker_error_msg(c));
+	if (r == 0 && expect_usable) {
+		n_floor_ok++;
+		vf_nontrivial_case();
+	}
+	if (r != 0)
+		n_floor_refused++;
+	if (out) {
+		/* the library must also accept its own token */
+		int r2 = jwt_checker_verify(c, out);
+		if (r2 != 0 && expect_usable)
+			vf_violation("own-token-rejected", "library rejects the token it generated with %s / %s: %s", p->name, tok_alg_names[alg], jwt_checker_error_msg(c));
+	}
+	free(tok);
+	free(out);
+	jwt_checker_free(c);
+	jwt_builder_free(b);
+	jwks_free(set);
+}
+
+static void enumerate_c09(void)
+{
+	static const jwt_alg_t HS[] = { JWT_ALG_HS256, JWT_ALG_HS384, JWT_ALG_HS512 };
+	static const jwt_alg_t RSA[] = { JWT_ALG_RS256, JWT_ALG_RS384, JWT_ALG_RS512, JWT_ALG_PS256, JWT_ALG_PS384, JWT_ALG_PS512 };
+	static const jwt_alg_t ES[] = { JWT_ALG_ES256, JWT_ALG_ES256K, JWT_ALG_ES384, JWT_ALG_ES512 };
+	int gnutls = vf_param == 1;
+	/* oct keys of every length 1..160 (length 0 has no JWK form: an empty k is rejected at import) */
+	for (int len = 1; len <= 160; len++)
+		for (int a = 0; a < 3; a++) {
+			if (!vf_case("oct key of %d bytes with %s", len, tok_alg_names[HS[a]]))
+				continue;
+			pk_t p = { 0 };
+			p.name = "oct";
+			p.octlen = len;
+			vk_oct_bytes(len, p.oct, len);
+			int need = HS[a] == JWT_ALG_HS256 ? 32 : HS[a] == JWT_ALG_HS384 ? 48 : 64;
+			floor_cell(&p, HS[a], len >= need, 1);
+		}
+	static const char *rsas[] = { "rsa512", "rsa1024", "rsa1536", "rsa2047", "rsa2048a", "rsa2048b", "rsa2056", "rsa3072", "rsa4096", "rsa2048e3", "rsa2048e33", "rsapss2048" };
+	for (unsigned k = 0; k < sizeof rsas / sizeof *rsas; k++)
+		for (int a = 0; a < 6; a++) {
+			if (!vf_case("RSA key %s with %s", rsas[k], tok_alg_names[RSA[a]]))
+				continue;
+			pk_t p = { 0 };
+			p.name = rsas[k];
+			p.vk = vk_get(rsas[k]);
+			rc_rng_reseed(vf_case_index());
+			/* an RSA-PSS key is restricted to PS*: no completeness demand for RS* on it; the PEM of the pool's
+			 * RSA-PSS key only becomes an RSA-PSS EVP_PKEY through an alg attribute, which this JWK lacks */
+			floor_cell(&p, RSA[a], p.vk->bits >= 2048, 1);
+		}
+	static const char *ecs[] = { "p256a", "p256b", "p384", "p521", "k256", "p256_x0", "p384_y0", "p521_d0", "k256_x0" };
+	for (unsigned k = 0; k < sizeof ecs / sizeof *ecs; k++)
+		for (int a = 0; a < 4; a++) {
+			if (!vf_case("EC key %s with %s", ecs[k], tok_alg_names[ES[a]]))
+				continue;
+			pk_t p = { 0 };
+			p.name = ecs[k];
+			p.vk = vk_get(ecs[k]);
+			rc_rng_reseed(vf_case_index());
+			int usable = p.vk->bits == rc_es_bits(ES[a]);
+			/* GnuTLS implements neither ES256K nor secp256k1 (C12 scopes them out): no completeness demand there */
+			int complete = !(gnutls && (ES[a] == JWT_ALG_ES256K || !strcmp(p.vk->crv, "secp256k1")));
+			floor_cell(&p, ES[a], usable, complete);
+		}
+	static const char *okps[] = { "ed25519a", "ed25519b", "ed448", "x25519" };
+	for (unsigned k = 0; k < sizeof okps / sizeof *okps; k++) {
+		if (!vf_case("OKP key %s with EdDSA", okps[k]))
+			continue;
+		pk_t p = { 0 };
+		p.name = okps[k];
+		p.vk = vk_get(okps[k]);
+		floor_cell(&p, JWT_ALG_EDDSA, strcmp(p.vk->crv, "X25519") != 0, 1);
+	}
+	/* every asymmetric key against every algorithm of another family must be refused as well */
+	static const char *cross[] = { "rsa2048a", "p256a", "p384", "p521", "ed25519a", "ed448" };
+	for (unsigned k = 0; k < sizeof cross / sizeof *cross; k++)
+		for (int alg = 1; alg < 15; alg++) {
+			pk_t p = { 0 };
+			p.name = cross[k];
+			p.vk = vk_get(cross[k]);
+			if (!family_size_reason(&p, (jwt_alg_t)alg))
+				continue;
+			if (!vf_case("cross-family: key %s with %s", cross[k], tok_alg_names[alg]))
+				continue;
+			rc_rng_reseed(vf_case_index());
+			floor_cell(&p, (jwt_alg_t)alg, 0, 0);
+		}
+	vf_count("worked_at_or_above_floor", n_floor_ok);
+	vf_count("refused", n_floor_refused);
+}
+
 static void enumerate(void)
 {
 	vf_alloc_install();
@@ -596,6 +903,10 @@ static void enumerate(void)
 	init_headers();
 	if (!strcmp(vf_prop, "C02"))
 		enumerate_c02();
+	else if (!strcmp(vf_prop, "C03"))
+		enumerate_c03();
+	else if (!strcmp(vf_prop, "C09"))
+		enumerate_c09();
 	else {
 		fprintf(stderr, "policy: unknown --prop %s\n", vf_prop);
 		exit(2);
